@@ -35,7 +35,72 @@ OPS = {  # name -> (function, arities, widths)
     '<': ('eval_op_inf', (2,), (8, 16, 32, 64)),
     '*lo': ('eval_op_mullo', (2,), (8, 16, 32)),
     '*hi': ('eval_op_mulhi', (2,), (8, 16, 32)),
+    # x86 named operators: signed high half, the 8-bit multiplies (operands are the 16/32-bit registers, only their low bytes count)
+    'imulhi': ('eval_op_imulhi', (2,), (8, 16, 32)),
+    'umul08': ('eval_op_umul08', (2,), (16, 32)),
+    'imul08': ('eval_op_imul08', (2,), (16, 32)),
+    # double-width dividend hi:lo by a single-width divisor; ValueError iff divisor 0 or the quotient does not fit (#DE)
+    'div': ('eval_op_div', (3,), (8, 16, 32)),
+    'rem': ('eval_op_rem', (3,), (8, 16, 32)),
+    'idiv': ('eval_op_idiv', (3,), (8, 16, 32)),
+    'irem': ('eval_op_irem', (3,), (8, 16, 32)),
 }
+DIVS = ('div', 'rem', 'idiv', 'irem')
+# shifts: the count is enumerated (every count below the width is one obligation set, exact encoding x * 2^k / x // 2^k), and one more
+# set for ALL counts >= width with the count symbolic.  'arities' holds the count tags here.
+SHIFTS = {'<<': 'eval_op_lshift', '>>': 'eval_op_rshift', 'a>>': 'eval_op_arshift'}
+for _op, _fn in SHIFTS.items():
+    OPS[_op] = (_fn, None, (8, 16, 32, 64))
+def shift_tags(n):
+    return list(range(n)) + ['big']
+
+def is_big(k, n):
+    """the count is 'every value >= n' (symbolic) or a concrete value >= n"""
+    return hasattr(k, 'sexpr') or k >= n
+
+def _sg(v, n, ite):
+    return ite(v >= (1 << (n - 1)), v - (1 << n), v)
+
+def divmod_spec(op, vals, n, ite=None, Or=None):
+    """(quotient, remainder, divide-error condition) of the double-width dividend vals[0]:vals[1] by vals[2]; unsigned for div/rem,
+    signed with the quotient truncated toward zero for idiv/irem (IA-32 DIV/IDIV)"""
+    M = 1 << n
+    sym = hasattr(vals[0], 'sexpr')
+    if ite is None or not sym:
+        ite = lambda c, a, b: a if c else b
+        Or = lambda *a: any(a)
+    elif Or is None:
+        import z3
+        Or = z3.Or
+    div = (lambda a, b: a / b) if sym else (lambda a, b: a // b if b else 0)
+    hi, lo, d = vals
+    big = hi * M + lo
+    if op in ('div', 'rem'):
+        q = div(big, d)
+        return q, big - q * d, Or(d == 0, q > M - 1)
+    sb = _sg(big, 2 * n, ite); sc = _sg(d, n, ite)
+    ab = ite(sb < 0, -sb, sb); ac = ite(sc < 0, -sc, sc)
+    aq = div(ab, ac)
+    q = ite((sb < 0) == (sc < 0), aq, -aq)
+    return q, sb - q * sc, Or(d == 0, q < -(M // 2), q > M // 2 - 1)
+
+def div_error(op, vals, n, ite=None, Or=None):
+    """the divide-error condition of the architecture (no result): divisor 0 or quotient out of range.  Stated without a division:
+    unsigned: hi >= d  (big // d > M-1  <=>  big >= M*d  <=>  hi >= d);  signed: |big| >= |d| * 2^(n-1) except the one more negative value"""
+    M = 1 << n
+    hi, lo, d = vals
+    if ite is None:
+        ite = lambda c, a, b: a if c else b
+        Or = lambda *a: any(a)
+    if op in ('div', 'rem'):
+        return Or(d == 0, hi >= d)
+    big = _sg(hi * M + lo, 2 * n, ite)
+    c = _sg(d, n, ite)
+    H = M // 2
+    ab = ite(big < 0, -big, big); ac = ite(c < 0, -c, c)
+    same = (big < 0) == (c < 0)
+    # quotient truncated toward zero: |q| = ab // ac ; allowed  q <= H-1 when signs agree, |q| <= H when they differ
+    return Or(d == 0, ite(same, ab >= ac * H, ab >= ac * (H + 1)))
 
 def spec(op, vals, n, bitop=None, ite=None):
     """arithmetic meaning of the IR operator on unsigned values < 2^n (Python ints or terms)"""
@@ -61,6 +126,22 @@ def spec(op, vals, n, bitop=None, ite=None):
     if op == '==': return ite(vals[0] == vals[1], 1, 0)
     if op == '<': return ite(vals[0] < vals[1], 1, 0)
     if op == '*lo': return (vals[0] * vals[1]) % M
+    if op in SHIFTS:
+        x, k = vals
+        big = is_big(k, n)
+        if op == '<<': return 0 if big else (x * (1 << k)) % M
+        if op == '>>': return 0 if big else (x // (1 << k) if not hasattr(x, 'sexpr') else x / (1 << k))
+        sx = _sg(x, n, ite)
+        if big: return ite(x >= M // 2, M - 1, 0)
+        return ((sx // (1 << k)) if not hasattr(x, 'sexpr') else (sx / (1 << k))) % M
+    if op in DIVS:
+        q, r, err = divmod_spec(op, vals, n, ite)
+        return (r if op in ('rem', 'irem') else q) % M
+    if op == 'imulhi':
+        p = _sg(vals[0], n, ite) * _sg(vals[1], n, ite)
+        return ((p // M) % M) if not hasattr(vals[0], 'sexpr') else ((p / M) % M)      # floor division, divisor positive
+    if op == 'umul08': return ((vals[0] % 256) * (vals[1] % 256)) % M
+    if op == 'imul08': return (_sg(vals[0] % 256, 8, ite) * _sg(vals[1] % 256, 8, ite)) % M
     if op == '*hi': return ((vals[0] * vals[1]) // M) % M if not hasattr(vals[0], 'sexpr') else ((vals[0] * vals[1]) / M) % M
     raise ValueError(op)
 
@@ -72,13 +153,31 @@ def contracts(op, n):
     fn = OPS[op][0]
     qn = '%s:eval_abs.%s' % (EA, fn)
     def pre(ctx, self, args, op_size, cast_int):
-        return And(*[cm.inv(a) for a in args])
+        p = And(*[cm.inv(a) for a in args])
+        if op in ('>>', 'a>>') and is_sym(args[1].arg):
+            # ASSUMED fact of Python's int >> (listed in the evidence): a value of magnitude below 2^n shifted right by n or more
+            # positions is 0, or -1 when negative.  The count is symbolic here, so the encoding keeps >> uninterpreted (py_shr).
+            import z3
+            from specs.duck import _uf
+            a, r = z3.Ints('lem_a lem_r')
+            M = 1 << n
+            p = And(p, args[1].arg >= n, z3.ForAll([a, r], z3.Implies(z3.And(a >= -M, a < M, r >= n),
+                                                            _uf('py_shr')(a, r) == z3.If(a < 0, z3.IntVal(-1), z3.IntVal(0)))))
+        elif op in SHIFTS and is_sym(args[1].arg):
+            p = And(p, args[1].arg >= n)
+        return p
     def post(ctx, res, self, args, op_size, cast_int):
         vals = [a.arg for a in args]
         want = spec(op, vals, n, bitop=bitop, ite=lambda c, a, b: If(c, a, b))
         got = cm.val(res)
         if got is None: return False
         return cm.norm(cast_int, got) == want
+    if op in DIVS:
+        C['%s:eval_abs._div_operands' % EA] = Contract('%s:eval_abs._div_operands' % EA, inline=True)     # verified inline, as part of each caller
+        # ValueError exactly when the architecture raises #DE (divisor 0 or quotient out of range)
+        def cond(ctx, self, args, op_size, cast_int):
+            return divmod_spec(op, [a.arg for a in args], n, ite=lambda c, a, b: If(c, a, b))[2]
+        return qn, Contract(qn, pre=pre, post=post, raises={'ValueError': cond}, raises_iff=('ValueError',)), C
     return qn, Contract(qn, pre=pre, post=post), C
 
 def native(op, n, vals):
@@ -88,11 +187,22 @@ def native(op, n, vals):
     cls = getattr(M, 'uint%d' % n)
     m = eval_abs({}, log=logging.getLogger('verif.null'))
     args = [cls(v) for v in vals]
+    err = False
+    if op in DIVS:
+        iv = [int(a) for a in args]
+        err = bool(divmod_spec(op, iv, n)[2])
+        if err != bool(div_error(op, iv, n)):
+            return 'spec self-check: the two statements of the divide-error condition disagree on %s %r' % (op, iv)
     try:
         r = getattr(m, OPS[op][0])(args, n, cls)
         got = int(cls(r))
+    except ValueError as ex:
+        if err: return None
+        return '%s raised %s: %s' % (OPS[op][0], type(ex).__name__, ex)
     except Exception as ex:
         return '%s raised %s: %s' % (OPS[op][0], type(ex).__name__, ex)
+    if err:
+        return '%s(%s) at %d bits returned %#x, the architecture raises a divide error (no result)' % (OPS[op][0], ', '.join('%#x' % int(a) for a in args), n, got)
     want = spec(op, [int(a) for a in args], n)
     if got != want:
         return '%s(%s) at %d bits = %#x, the operator denotes %#x' % (OPS[op][0], ', '.join('%#x' % int(a) for a in args), n, got, want)
@@ -119,12 +229,21 @@ def _job(job):
     def make_args(ctx):
         ins = {}
         args = []
+        if op in SHIFTS:
+            v = z3.Int('x0'); ins['x0'] = v
+            args.append(SObj(cls, {'arg': v}, fresh=False))
+            if ar == 'big':
+                k = z3.Int('x1'); ins['x1'] = k
+            else:
+                k = ar
+            args.append(SObj(cls, {'arg': k}, fresh=False))
+            return [SObj(E.eval_abs, {}, fresh=False), args, n, cls], ins
         for i in range(ar):
             v = z3.Int('x%d' % i); ins['x%d' % i] = v
             args.append(SObj(cls, {'arg': v}, fresh=False))
         me = SObj(E.eval_abs, {}, fresh=False)
         return [me, args, n, cls], ins
-    base = 'C06:%s[%s,uint%d,arity%d]' % (OPS[op][0], op, n, ar)
+    base = 'C06:%s[%s,uint%d,arity%d]' % (OPS[op][0], op, n, ar) if op not in SHIFTS else 'C06:%s[%s,uint%d,count%s]' % (OPS[op][0], op, n, ar if ar == 'big' else '%02d' % ar)
     out = []
     try:
         V = engine.verify_function(qn, node, vars(mod), top, C, make_args, timeout_ms=20000)
@@ -142,8 +261,8 @@ def _job(job):
         elif d['status'] == 'sat':
             w = d['witness'] or {}
             vals = []
-            for i in range(ar):
-                try: vals.append(int(w.get('x%d' % i, 0)))
+            for i in range(2 if op in SHIFTS else ar):
+                try: vals.append(int(w.get('x%d' % i, ar if op in SHIFTS and i == 1 else 0)))
                 except Exception: vals.append(0)
             msg = native(op, n, vals)
             if msg is None:
@@ -164,7 +283,7 @@ def ob_smt(run):
         mod, node, seg, path = resolve(qn)
         run.function(qn, seg, path, node.lineno)
         for n in ws:
-            for ar in ars:
+            for ar in (ars if op not in SHIFTS else shift_tags(n)):
                 jobs.append((op, n, ar))
     with multiprocessing.get_context('fork').Pool(min(16, os.cpu_count() or 4)) as pool:
         results = pool.map(_job, jobs, chunksize=1)
@@ -186,6 +305,18 @@ def ob_smt(run):
     for op, (fn, ars, ws) in OPS.items():
         for n in ws:
             B = sorted(set([0, 1, 2, 3, (1 << (n - 1)) - 1, 1 << (n - 1), (1 << n) - 2, (1 << n) - 1, 0x55 & ((1 << n) - 1), 0xf0 & ((1 << n) - 1)]))
+            if op in SHIFTS:
+                for x in B:
+                    for k in sorted(set(list(range(n + 2)) + [2 * n, (1 << n) - 1])):
+                        cnt += 1
+                        msg = native(op, n, [x, k])
+                        if msg:
+                            bad += 1
+                            oid = 'C06:%s[%s,uint%d]:twin' % (fn, op, n)
+                            rp = run.write_replay(oid, {'obligation': oid}, REPLAY % dict(verif=common.VERIF, repo=common.REPO, data={'op': op, 'n': n, 'vals': [x, k]}))
+                            run.ob(oid, FAILED, 'BND', 'cpython-enum', detail=msg, witness=rp, confirmed=True, func=fn)
+                            break
+                continue
             for ar in ars:
                 pool_vals = B if ar <= 2 else B[:6]
                 for vals in itertools.product(pool_vals, repeat=ar):
